@@ -4,7 +4,7 @@
    statement about all values of [hreq].  Rendering to bytes and hyper's own parsing are
    outside the model (the orchestrator classifies what hyper rejects before [handle]).
    Model file: definitions only.  [fixed = false] is the pinned code (kept as a regression
-   witness), [fixed = true] the code after the two `fix:` commits on api.rs. *)
+   witness), [fixed = true] the code after the `fix:` commits on api.rs. *)
 From XS Require Export Model.Store.
 
 Inductive qid := QAbsent | QOk (i : N) | QBad.
@@ -70,7 +70,10 @@ Definition handle (fixed : bool) (st : hstate) (i : N) (r : hreq) : hresp * hsta
                 let ttl := match t with TOk x => Some x | _ => Some Forever end in
                 match append s i (mkFrame 0 cx topic hash meta ttl) with
                 | (Ok f, s') => (HResp 200 (BFrame f), mkH s' cas1)
-                | (Err _, s') => (HResp 500 BText, mkH s' cas1)
+                (* the store refuses the frame for what it is (unregistered context, xs.context outside the zero
+                   context, NUL in the topic): a client error since the fix "answer a frame the store refuses with
+                   400"; the pinned code said 500 *)
+                | (Err _, s') => (HResp (if fixed then 400 else 500) BText, mkH s' cas1)
                 end in
               match m with
               | MAbsent => go None
@@ -114,7 +117,7 @@ Definition handle (fixed : bool) (st : hstate) (i : N) (r : hreq) : hresp * hsta
   | RImport (Some f) =>
       match insert_frame s f with
       | (Ok _, s') => (HResp 200 (BFrame f), mkH s' (h_cas st))
-      | (Err _, s') => (HResp 500 BText, mkH s' (h_cas st))
+      | (Err _, s') => (HResp (if fixed then 400 else 500) BText, mkH s' (h_cas st))
       end
   | RNotFound => (HResp 404 BEmpty, st)
   end.
